@@ -1568,7 +1568,7 @@ class WindowFrameAnalyticFunction(AnalyticFunction):
 
         def __str__(self) -> str:
             return "{value} {modifier}".format(
-                value=self.value or "UNBOUNDED",
+                value=self.value if self.value is not None else "UNBOUNDED",
                 modifier=self.modifier,
             )
 
